@@ -34,6 +34,12 @@ pub fn get_rewards_share(deps: Deps, address: Addr) -> Result<RewardsShareRespon
         });
     }
 
+    // the earliest weight recorded for the address only applies from a later epoch on, i.e. the
+    // address has no weight in the current epoch (claims treat it the same way)
+    if last_epoch_user_weight_update > current_epoch {
+        last_user_weight_seen = Uint128::zero();
+    }
+
     let start_epoch = last_epoch_user_weight_update;
     for epoch_id in start_epoch..=current_epoch {
         let user_weight_at_epoch =
